@@ -12,5 +12,9 @@ for id in "$@"; do
   if ! git -C $WT apply /verif/seeded/$id/patch.diff 2>/dev/null; then echo "$id PATCH-DOES-NOT-APPLY-TO-HEAD"; continue; fi
   R=$(cd $WT && cargo test --workspace --no-fail-fast --offline 2>&1 | grep -E "^test result|^error(\[|:)" | awk '/^test result/ {p+=$4; f+=$6} /^error/ {e+=1} END {print "passed",p,"failed",f,"build_errors",e+0}')
   echo "$id workspace-suite-with-change: $R"
+  python3 - "$id" "$R" "$(git -C /repo rev-parse --short HEAD)" <<'PY'
+import json,sys
+p=f"/verif/seeded/{sys.argv[1]}/meta.json"; d=json.load(open(p)); d["workspace_suite_with_change"]=f"cargo test --workspace --no-fail-fast --offline at /repo {sys.argv[3]} + patch: {sys.argv[2]}"; json.dump(d,open(p,"w"),indent=1)
+PY
 done
 git -C $WT checkout -q -- .
